@@ -344,3 +344,234 @@ Proof.
   fold (nelts d ds dt). fold (nmd_final d ds dt). fold (emd_final d ds dt).
   rewrite (md_keys_nonempty d ds dt W), (wgraph_of_final d ds dt W). reflexivity.
 Qed.
+
+(* ================================================================== *)
+(* 6. The converter's arrays are a well-formed input of write_arrays   *)
+(* ================================================================== *)
+Definition pos_keys : list string := ["POSITION_X"; "POSITION_Y"; "POSITION_Z"; "POSITION_T"].
+
+Lemma ahas_app_l {V} k (a b : list (string * V)) : ahas k a = true -> ahas k (a ++ b) = true.
+Proof. unfold ahas. rewrite alookup_app. destruct (alookup k a); [reflexivity | discriminate]. Qed.
+
+Lemma ahas_cattrs md k a : ahas k (cattrs md a) = ahas k a.
+Proof. unfold ahas. rewrite alookup_cattrs. destruct (alookup k a); reflexivity. Qed.
+
+Lemma final_node_has_pos d ds dt a k : wf_tm d -> In a (nelts d ds dt) -> In k pos_keys -> ahas k a = true.
+Proof.
+  intros W Ha Hk. unfold nelts in Ha. apply in_map_iff in Ha. destruct Ha as [n [<- Hn]].
+  destruct (final_node_form d ds dt n W Hn) as [sp [Hsp [_ [_ ->]]]].
+  pose proof (forallb_In _ _ _ (wf_spots d W) Hsp) as Hok. destruct (spot_ok_parts _ _ Hok) as [_ [_ [Hpos _]]].
+  assert (H0 : ahas k (node_attrs_of (attrs_md d) (has_roi d) sp) = true).
+  { unfold node_attrs_of. destruct (has_roi d); [apply ahas_app_l|]; rewrite ahas_cattrs; apply Hpos; exact Hk. }
+  destruct (track_of d (spot_id sp)); [apply ahas_app_l|]; exact H0.
+Qed.
+
+Lemma final_node_keys_nonempty d ds dt a k : wf_tm d -> In a (nelts d ds dt) -> In k (akeys a) -> k <> "".
+Proof.
+  intros W Ha Hk. unfold nelts in Ha. apply in_map_iff in Ha. destruct Ha as [n [<- Hn]].
+  destruct (final_node_form d ds dt n W Hn) as [sp [Hsp [_ [_ Hs]]]]. rewrite Hs in Hk.
+  pose proof (forallb_In _ _ _ (wf_spots d W) Hsp) as Hok. destruct (spot_ok_parts _ _ Hok) as [Hat _].
+  assert (H0 : forall x, In x (akeys (node_attrs_of (attrs_md d) (has_roi d) sp)) -> x <> "").
+  { intros x Hx. unfold node_attrs_of in Hx.
+    assert (Hc : In x (akeys (cattrs (attrs_md d) (sp_attrs sp))) -> x <> "").
+    { rewrite akeys_cattrs. intros Hi. unfold akeys in Hi. apply in_map_iff in Hi. destruct Hi as [kv [<- Hkv]].
+      pose proof (forallb_In _ _ _ Hat Hkv) as Hak. unfold attr_okb in Hak. apply andb_true_iff in Hak. destruct Hak as [Hak _].
+      apply negb_true_iff in Hak. intros E. rewrite E in Hak. discriminate. }
+    destruct (has_roi d); [|auto]. rewrite akeys_app in Hx. apply in_app_or in Hx. destruct Hx as [Hx|[<-|[]]]; [auto | discriminate]. }
+  destruct (track_of d (spot_id sp)); [|auto]. rewrite akeys_app in Hk. apply in_app_or in Hk. destruct Hk as [Hk|[<-|[]]]; [auto | discriminate].
+Qed.
+
+Lemma final_edge_keys_nonempty d ds dt a k : wf_tm d -> In a (map snd (eouts d ds dt)) -> In k (akeys a) -> k <> "".
+Proof.
+  intros W Ha Hk. apply in_map_iff in Ha. destruct Ha as [e [<- He]].
+  apply (Permutation_in _ (eouts_perm d ds dt W)) in He.
+  destruct (final_edge_form d ds dt e W He) as [l [Hl [_ [Hs _]]]]. rewrite Hs, akeys_cattrs in Hk.
+  destruct (link_ok_parts _ _ _ (tlinks_ok d W l Hl)) as [Hat _].
+  unfold akeys in Hk. apply in_map_iff in Hk. destruct Hk as [kv [<- Hkv]].
+  pose proof (forallb_In _ _ _ Hat Hkv) as Hak. unfold attr_okb in Hak. apply andb_true_iff in Hak. destruct Hak as [Hak _].
+  apply negb_true_iff in Hak. intros E. rewrite E in Hak. discriminate.
+Qed.
+
+Lemma missing_none name elts : (forall a, In a elts -> ahas name a = true) -> missing_arr (col_missing name elts) = None.
+Proof.
+  intros H. unfold missing_arr.
+  assert (E : existsb (fun b => b) (col_missing name elts) = false).
+  { apply not_true_is_false. intros Hx. apply existsb_exists in Hx. destruct Hx as [b [Hb ->]].
+    unfold col_missing in Hb. apply in_map_iff in Hb. destruct Hb as [a [Hn Ha]]. rewrite (H a Ha) in Hn. discriminate. }
+  rewrite E. reflexivity.
+Qed.
+
+(* the node properties that reach the store: for an empty graph write_arrays creates empty coordinate columns *)
+Definition axis_empty : props :=
+  [("POSITION_X", empty_f64_prop); ("POSITION_Y", empty_f64_prop); ("POSITION_Z", empty_f64_prop); ("POSITION_T", empty_f64_prop)].
+Definition nps_final (d : tm) (ds dt : bool) : props :=
+  match final_ids d ds dt with [] => axis_empty | _ => nprops_of d ds dt end.
+
+Lemma nelts_length d ds dt : length (nelts d ds dt) = length (final_ids d ds dt).
+Proof. unfold nelts, final_ids. rewrite !map_length. reflexivity. Qed.
+
+Lemma backfill_final d ds dt :
+  backfill (nids_arr d ds dt) (md_final d ds dt) (Some (nprops_of d ds dt)) = Some (nps_final d ds dt).
+Proof.
+  unfold backfill, md_final, metadata_of, nids_arr, nps_final. cbn [md_axes len0 a_shape].
+  destruct (final_ids d ds dt) as [|z r] eqn:E; [|reflexivity].
+  unfold nprops_of. assert (Hn : nelts d ds dt = []).
+  { apply length_zero_iff_nil. rewrite nelts_length, E. reflexivity. }
+  rewrite Hn. reflexivity.
+Qed.
+
+Lemma pos_kind d k : wf_tm d -> In k pos_keys -> nkind d k = KF.
+Proof.
+  intros W Hk. destruct (wf_axes_float d W k Hk) as [Hmd _]. unfold nkind, key_kind, base_kind. rewrite Hmd.
+  destruct Hk as [<-|[<-|[<-|[<-|[]]]]]; reflexivity.
+Qed.
+
+Lemma pos_in_keys d ds dt k : wf_tm d -> final_ids d ds dt <> [] -> In k pos_keys -> In k (keys_of (nelts d ds dt)).
+Proof.
+  intros W Hne Hk. apply keys_of_In.
+  destruct (nelts d ds dt) as [|a r] eqn:E.
+  - exfalso. apply Hne. apply length_zero_iff_nil. rewrite <- nelts_length, E. reflexivity.
+  - exists a. split; [left; reflexivity|]. apply ahas_in. apply (final_node_has_pos d ds dt a k W); [rewrite E; left; reflexivity | exact Hk].
+Qed.
+
+(* a coordinate column: float64, one value per node, nothing missing *)
+Lemma pos_column d ds dt k : wf_tm d -> final_ids d ds dt <> [] -> In k pos_keys ->
+  alookup k (nprops_of d ds dt) =
+    Some (mkprop (PFixed (mkarr DF64 [length (final_ids d ds dt)] (map (cell KF k) (nelts d ds dt)))) None).
+Proof.
+  intros W Hne Hk. unfold nprops_of. rewrite (alookup_tprops _ _ _ (pos_in_keys d ds dt k W Hne Hk)).
+  unfold tprop. rewrite (pos_kind d k W Hk). unfold scalar_prop. rewrite nelts_length.
+  rewrite missing_none; [reflexivity|]. intros a Ha. apply (final_node_has_pos d ds dt a k W Ha Hk).
+Qed.
+
+Lemma axis_empty_wf : wf_props 0 (Some axis_empty).
+Proof.
+  intros ps Hps. inversion Hps; subst ps. split.
+  - cbn. repeat constructor; cbn; intuition discriminate.
+  - repeat constructor; cbn; try (eexists; eexists; split; reflexivity); try (eexists; reflexivity).
+Qed.
+
+Lemma prune_keys_in elts (m : fmetas) k : In k (akeys (prune_md elts m)) -> In k (keys_of elts).
+Proof.
+  intros H. unfold akeys in H. apply in_map_iff in H. destruct H as [kv [<- Hkv]]. unfold prune_md in Hkv.
+  apply filter_In in Hkv. destruct Hkv as [_ Hex]. apply existsb_exists in Hex. destruct Hex as [a [Ha Hh]].
+  apply keys_of_In. exists a. split; [exact Ha | apply ahas_in; exact Hh].
+Qed.
+
+Lemma akeys_map_pm (m : fmetas) : akeys (map (fun kv : string * fmeta => (fst kv, pm_of (snd kv))) m) = akeys m.
+Proof. unfold akeys. rewrite map_map. reflexivity. Qed.
+
+Theorem final_wf_input d ds dt : wf_tm d ->
+  wf_input (wgraph_final d ds dt) (md_final d ds dt) (length (final_ids d ds dt)) (length (final_edges d ds dt)).
+Proof.
+  intros W.
+  assert (Hnty := final_nodes_typed d ds dt W).
+  assert (Hety : Forall (typedk (ekind d)) (map snd (eouts d ds dt))).
+  { apply (final_edges_typed d ds dt _ W). intros e He. apply (Permutation_in _ (eouts_perm d ds dt W) He). }
+  constructor; cbn [wgraph_final w_nids w_eids w_nprops w_eprops nids_arr eids_arr a_shape a_dt].
+  - reflexivity.
+  - reflexivity.
+  - reflexivity.
+  - reflexivity.
+  - fold (nids_arr d ds dt). rewrite backfill_final. unfold nps_final.
+    destruct (final_ids d ds dt) as [|z r] eqn:E; [exact axis_empty_wf|].
+    rewrite <- E, <- nelts_length. apply tprops_wf; [exact Hnty|]. intros a k. apply (final_node_keys_nonempty d ds dt a k W).
+  - replace (length (final_edges d ds dt)) with (length (map snd (eouts d ds dt))) by (unfold final_edges; rewrite !map_length; reflexivity).
+    unfold eprops_of. apply tprops_wf; [exact Hety|]. intros a k. apply (final_edge_keys_nonempty d ds dt a k W).
+  - fold (nids_arr d ds dt). rewrite backfill_final. unfold md_final, metadata_of. cbn [md_nprops names_of].
+    intros k Hk. rewrite akeys_map_pm in Hk. apply prune_keys_in in Hk. unfold nps_final.
+    destruct (final_ids d ds dt) as [|z r] eqn:E.
+    + exfalso. assert (Hn : nelts d ds dt = []) by (apply length_zero_iff_nil; rewrite nelts_length, E; reflexivity).
+      rewrite Hn in Hk. apply keys_of_In in Hk. destruct Hk as [a [[] _]].
+    + unfold nprops_of. rewrite akeys_tprops. exact Hk.
+  - unfold md_final, metadata_of. cbn [md_eprops names_of]. intros k Hk. rewrite akeys_map_pm in Hk. apply prune_keys_in in Hk.
+    unfold eprops_of. rewrite akeys_tprops. apply keys_of_In in Hk. destruct Hk as [a [Ha Hka]]. apply keys_of_In. exists a. split; [|exact Hka].
+    apply in_map_iff in Ha. destruct Ha as [e [<- He]]. apply in_map. apply (Permutation_in _ (Permutation_sym (eouts_perm d ds dt W)) He).
+  - intros axes Hax. unfold md_final, metadata_of in Hax. cbn [md_axes] in Hax. inversion Hax; subst axes; clear Hax.
+    fold (nids_arr d ds dt). rewrite backfill_final. eexists. split; [reflexivity|]. unfold nps_final.
+    destruct (final_ids d ds dt) as [|z r] eqn:E.
+    + intros ax Hin. unfold tm_axes in Hin. exists (mkarr DF64 [0%nat] []), 0%nat.
+      destruct Hin as [<-|[<-|[<-|[<-|[]]]]]; cbn [ax_name]; (split; [cbn; tauto | reflexivity]).
+    + intros ax Hin. assert (Hk : In (ax_name ax) pos_keys).
+      { unfold tm_axes in Hin. destruct Hin as [<-|[<-|[<-|[<-|[]]]]]; cbn; tauto. }
+      assert (Hne : final_ids d ds dt <> []) by (rewrite E; discriminate).
+      pose proof (pos_column d ds dt (ax_name ax) W Hne Hk) as Hc. rewrite E in Hc.
+      eexists. eexists. split; [apply alookup_some_in; exact Hc | reflexivity].
+Qed.
+
+(* ================================================================== *)
+(* 7. final_metadata and the whole pipeline                            *)
+(* ================================================================== *)
+Lemma mapM_exists {A B} (f : A -> res B) l : (forall x, In x l -> exists y, f x = Ok y) -> exists ys, mapM f l = Ok ys.
+Proof.
+  induction l as [|x r IH]; intros H; [exists []; reflexivity|].
+  destruct (H x (or_introl eq_refl)) as [y Hy]. destruct IH as [ys Hys]; [intros z Hz; apply H; right; exact Hz|].
+  exists (y :: ys). cbn. rewrite Hy, Hys. reflexivity.
+Qed.
+
+Lemma minmax_axis_ok nprops ax a n :
+  alookup (ax_name ax) nprops = Some (mkprop (PFixed a) None) -> a_shape a = [n] -> length (a_flat a) = n ->
+  exists ax', minmax_axis nprops ax = Ok ax'.
+Proof.
+  intros Hl Hs Hf. unfold minmax_axis. rewrite Hl. cbn [p_vals]. unfold len0. rewrite Hs.
+  destruct n as [|n]; [eexists; reflexivity|].
+  unfold axis_values. cbn [p_vals p_missing]. destruct (a_flat a) as [|x r]; [discriminate|]. cbn [zmin_list zmax_list]. eexists; reflexivity.
+Qed.
+
+Lemma nps_axis d ds dt ax : wf_tm d -> In ax tm_axes ->
+  exists a, alookup (ax_name ax) (nps_final d ds dt) = Some (mkprop (PFixed a) None) /\ a_dt a = DF64 /\
+            a_shape a = [length (final_ids d ds dt)] /\ length (a_flat a) = length (final_ids d ds dt).
+Proof.
+  intros W Hin. unfold nps_final. destruct (final_ids d ds dt) as [|z r] eqn:E.
+  - exists (mkarr DF64 [0%nat] []). unfold tm_axes in Hin. destruct Hin as [<-|[<-|[<-|[<-|[]]]]]; cbn; auto.
+  - assert (Hk : In (ax_name ax) pos_keys).
+    { unfold tm_axes in Hin. destruct Hin as [<-|[<-|[<-|[<-|[]]]]]; cbn; tauto. }
+    assert (Hne : final_ids d ds dt <> []) by (rewrite E; discriminate).
+    pose proof (pos_column d ds dt (ax_name ax) W Hne Hk) as Hc. rewrite E in Hc. eexists. split; [exact Hc|].
+    cbn [a_dt a_shape a_flat]. repeat split. rewrite map_length, nelts_length, E. reflexivity.
+Qed.
+
+Lemma final_metadata_ok d ds dt : wf_tm d ->
+  exists md', final_metadata (wgraph_final d ds dt) (md_final d ds dt) = Ok md'.
+Proof.
+  intros W. unfold final_metadata. cbn [wgraph_final w_nids w_nprops w_eprops]. rewrite backfill_final.
+  unfold compute_minmax. cbn [md_axes md_final metadata_of].
+  destruct (mapM_exists (minmax_axis (map (fun kv : string * prop => (fst kv, upcast_prop (snd kv))) (nps_final d ds dt))) tm_axes) as [axes' Hax].
+  - intros ax Hin. destruct (nps_axis d ds dt ax W Hin) as [a [Hl [Hdt [Hs Hf]]]].
+    apply (minmax_axis_ok _ ax a (length (final_ids d ds dt))); [|exact Hs | exact Hf].
+    rewrite alookup_map, Hl. cbn [option_map]. unfold upcast_prop. cbn [p_vals p_missing]. unfold upcast_arr. rewrite Hdt. reflexivity.
+  - rewrite Hax. eexists. reflexivity.
+Qed.
+
+Lemma axis_empty_upcast : up_props (Some axis_empty) = axis_empty.
+Proof. reflexivity. Qed.
+
+Lemma nps_final_upcast d ds dt : wf_tm d -> up_props (Some (nps_final d ds dt)) = nps_final d ds dt.
+Proof.
+  intros W. unfold nps_final. destruct (final_ids d ds dt); [apply axis_empty_upcast|].
+  apply tprops_upcast. apply (final_nodes_typed d ds dt W).
+Qed.
+
+Lemma eprops_upcast d ds dt : wf_tm d -> up_props (Some (eprops_of d ds dt)) = eprops_of d ds dt.
+Proof.
+  intros W. apply tprops_upcast. apply (final_edges_typed d ds dt _ W). intros e He. apply (Permutation_in _ (eouts_perm d ds dt W) He).
+Qed.
+
+(* conversion onto a free target: succeeds, the result passes structural validation and reads back as exactly the
+   converter's arrays under the written metadata *)
+Theorem pipeline d ds dt ow : wf_tm d ->
+  exists md' tr post,
+    final_metadata (wgraph_final d ds dt) (md_final d ds dt) = Ok md' /\
+    from_trackmate d ds dt ow (init None) = (mkst (Some post) tr, Ok tt) /\
+    validate_structure KPath (Some post) = Ok tt /\
+    read_to_memory KPath (Some post) true None None =
+      Ok (mkmg md' (nids_arr d ds dt) (eids_arr d ds dt) (nps_final d ds dt) (eprops_of d ds dt)).
+Proof.
+  intros W. destruct (final_metadata_ok d ds dt W) as [md' Hmd].
+  destruct (write_then_read KPath None _ _ md' _ _ false I (final_wf_input d ds dt W) Hmd) as [tr [post [Hw [Hv Hr]]]].
+  exists md', tr, post. split; [exact Hmd|]. split; [|split; [exact Hv|]].
+  - unfold from_trackmate. rewrite (wf_exists d W). cbn [negb]. unfold bind.
+    rewrite (check_for_geff_clean KPath None I). unfold ret, lift. rewrite (convert_wf d ds dt W). cbn [fst snd]. exact Hw.
+  - rewrite Hr. cbn [wgraph_final w_nids w_eids w_nprops w_eprops]. rewrite backfill_final, (nps_final_upcast d ds dt W), (eprops_upcast d ds dt W).
+    reflexivity.
+Qed.
